@@ -180,6 +180,7 @@ func c05Run(c *Ctx) {
 	} else {
 		layers = append(layers, sweepLayer{"L2", GenOpts{OneGate: true, LeafSet: 2, Slots: []int{0, 4, 12, 19}}, 2, outerF[:2]})
 	}
+	layers = append(layers, sweepLayer{"scale", GenOpts{Scale: true, ScaleThorough: c.Thorough()}, 0, outerF[:2]})
 	first := map[string]string{}
 	var corpus []string
 	sweep(c, layers, func(sc *sweepCase) bool {
